@@ -5,6 +5,7 @@
 
 """Click code for convert-dep5 subcommand."""
 
+import os
 from typing import cast
 
 import click
@@ -29,6 +30,11 @@ def convert_dep5(obj: ClickObj) -> None:
     project = obj.project
     if not (project.root / ".reuse/dep5").exists():
         raise click.UsageError(_("No '.reuse/dep5' file."))
+
+    # Also true for a symbolic link (even a dangling one) and for a file that
+    # the version control system ignores: neither is overwritten.
+    if os.path.lexists(project.root / "REUSE.toml"):
+        raise click.UsageError(_("'REUSE.toml' already exists."))
 
     text = toml_from_dep5(
         cast(ReuseDep5, project.global_licensing).dep5_copyright
